@@ -39,7 +39,7 @@ def cases(rng, tier):
     out = []
     for i in range(n):
         t = rec_type(rng, rng.choice([1, 2, 3]))
-        vals = [G.gen_value(rng, t, 4) for _ in range(rng.choice([0, 1, 2, 3, 4]))]
+        vals = G.rectangularise(rng, t, [G.gen_value(rng, t, 4) for _ in range(rng.choice([0, 1, 2, 3, 4]))], p=0.3)
         enc = G.Enc(rng)
         lay = G.encode_plain(enc, t, vals, False) if t[0] == 'rec' else G.encode(enc, t, vals)
         names = fields_of(t)
